@@ -19,7 +19,7 @@ WARMUP = True
 RULE = ('theorem cases: uniform or smoothly graded (non-constant dr) slices per layer; random 1-4 solid layers (+ optional static-liquid core), complex rigidity from the real Maxwell / Andrade / Burgers classes, l 2..4, '
         'frequency 1e-7..1e-3, three nested grids with >= 200 slices in total; kernel cases: two-layer elastic body with a Gaussian perturbation of K or mu at two amplitudes; '
         'non-trivial = all solves succeeded and -Im k > 1e-6 (theorem) / |delta k| > 1e-9 (kernel)')
-ASSUMPTIONS = ['discretisation error of the quadrature/stencil is first order in the slice spacing (upper layers start one slice above the interface): required |E(4N)| <= 0.75 |E(2N)| + 1/N_total, |E(2N)| <= 0.85 |E(N)| + 1/N_total and |E(4N)| <= 4/N_total (N_total = slices of the coarsest grid, >= 70 per layer)',
+ASSUMPTIONS = ['discretisation error of the quadrature/stencil is first order in the slice spacing (upper layers start one slice above the interface): required |E(4N)| <= 0.75 |E(2N)| + 1/N_total, |E(2N)| <= 0.85 |E(N)| + 1/N_total and |E(4N)| <= 10/N_total (graded grids have local spacings up to 2.3x the mean; N_total = slices of the coarsest grid, >= 70 per layer)',
                'kernel: extrapolated ratio 2 rho(eps) - rho(2 eps) = 1 +- 2e-3 (shear) / 1.5e-2 (bulk; formed by cancellation from a finite-difference gradient) on grids of 600 slices per layer']
 G = 6.6743e-11
 
@@ -67,7 +67,11 @@ def make_grid(layers, R, n, c):
     radii = []
     for i in range(len(layers)):
         x = np.linspace(0, 1, n) if i == 0 else np.linspace(0, 1, n + 1)[1:]
-        radii.append(bounds[i] + (bounds[i + 1] - bounds[i]) * (np.exp(beta * x) - 1) / (np.exp(beta) - 1))
+        rr = bounds[i] + (bounds[i + 1] - bounds[i]) * (np.exp(beta * x) - 1) / (np.exp(beta) - 1)
+        rr[-1] = bounds[i + 1]        # exactly the layer's upper radius (a 1-ulp mismatch makes the solver leave the last slice unfilled)
+        if i == 0:
+            rr[0] = bounds[0]
+        radii.append(rr)
     return layered_body(layers, R, 1e-3 * R, n, profile=c['profile'], radii_by_layer=radii)
 
 
@@ -160,7 +164,7 @@ def eval_case(c):
         obs.update(E=[float(x) for x in Es], heating_profile_E=[float(x) for x in Hs], k=complex(ks[-1]), layers=len(layers), N_total=ntot, rheo=c['rheo'])
         def converges(E):
             sl = 1.0 / ntot
-            return abs(E[2]) <= 0.75 * abs(E[1]) + sl and abs(E[1]) <= 0.85 * abs(E[0]) + sl and abs(E[2]) <= 4.0 / ntot
+            return abs(E[2]) <= 0.75 * abs(E[1]) + sl and abs(E[1]) <= 0.85 * abs(E[0]) + sl and abs(E[2]) <= 10.0 / ntot
         if not converges(Es):
             V('energy-theorem-does-not-converge', f'E(N,2N,4N) = {Es[0]:.3e}, {Es[1]:.3e}, {Es[2]:.3e} (N_total={ntot}): the integrated shear sensitivity does not converge to -Im k')
         if Hs and not converges(Hs):
